@@ -381,9 +381,10 @@ def check(run: Run) -> None:
                                 lo, hi = (d_.left, d_.comparators[0]) if isinstance(d_.ops[0], ast.Lt) else (d_.comparators[0], d_.left)
                                 if _len_norm(strip_sites(fx_._term(hi))) == n_pos and _reads_kind(subst(strip_sites(fx_._term(lo)), bind_)):
                                     limited = True
-        if not limited:
-            raise AnalysisError("the constructor lowering reads parameter kinds, but no refusal of the binder that compares them with the number of positional arguments was recognised")
-        run.check(limited, "C06.R9", cd_orig, cd_orig.node, "more positional arguments than positional parameters raise ValueError", "")
+        n_raises_ = sum(1 for g_ in unit(m, cd_orig, depth=1) for n in own_nodes(g_) if isinstance(n, ast.Raise))
+        if not limited and n_raises_ < 2:
+            raise AnalysisError("the constructor lowering reads parameter kinds, but the refusals of the binder could not be read")
+        run.check(limited, "C06.R9", cd_orig, cd_orig.node, "more positional arguments than positional parameters raise ValueError", "the lowering tells keyword-only parameters from positional ones, but no refusal of the binder holds their number against the number of positional arguments (len(a.args)): Mid(x, z=0, *, y=0) called Mid(e.a, e.b, e.c) still binds e.c to the keyword-only field", "if n_positional < len(a.args): raise ValueError(..)", key="positional arguments not limited to positional parameters")
 
     # ---------------- R5
     rcv = m.find_class("_rewrite_captured_vars", in_module="func_adl.util_ast")
@@ -399,6 +400,13 @@ def check(run: Run) -> None:
         const = any("isinstance" in t and "ast.Constant" in t and pol for t, pol in txts)
         keep_dc = any("is_dataclass" in t and not pol for t, pol in txts)
         keep_nt = any("_fields" in t and not pol for t, pol in txts)
+        # .. and no narrower: the lowering (syntax_transformer.visit_Call) asks hasattr(cls, "_fields") and nothing else, so
+        # a class that has _fields but fails a further condition here reaches the sugar pass as a plain call
+        narrowed = [a for a, pol in fx.atoms if not pol and isinstance(a, ast.BoolOp) and isinstance(a.op, ast.And) and any("_fields" in ast.unparse(v_) or "is_dataclass" in ast.unparse(v_) for v_ in a.values)]
+        bare = any(not pol and isinstance(a, ast.Call) and isinstance(a.func, ast.Name) and a.func.id == "hasattr" and len(a.args) == 2 and isinstance(a.args[1], ast.Constant) and a.args[1].value == "_fields" for a, pol in fx.atoms)
+        if narrowed and not bare:
+            extra = [ast.unparse(v_) for v_ in narrowed[0].values if "_fields" not in ast.unparse(v_) and "is_dataclass" not in ast.unparse(v_)]
+            run.fail("C06.R5", rc, st, f"a captured class keeps its place as a Constant callee only if, beyond having _fields / being a dataclass, {' and '.join(extra)[:160]}: the lowering asks for less (hasattr(cls, '_fields')), so e.g. a subclass of a NamedTuple (the usual way to add a docstring or a method) is left as an ordinary call - its constructor is not lowered, surplus and unknown arguments are not refused", "is_dataclass(v) or hasattr(v, '_fields') - the same test the sugar pass makes", key="capture keeps fewer classes than the sugar pass lowers")
         run.check(const and keep_dc and keep_nt, "C06.R5", rc, st, "callee restored iff it became a Constant that is neither a dataclass nor has _fields", "the captured-class callee is restored under a different condition: dataclass / NamedTuple constructors do not reach the sugar pass as constants (or other constants stay callees)")
         v = strip_sites(fr.term_of(st.value))
         run.check(v == ("attr", ("param", rc.pos_params[1]), "func"), "C06.R5", rc, st, "restored callee is the original one", f"restored callee is {show(v)[:60]}")
